@@ -341,6 +341,53 @@ impl<Key: Hash + Eq + Clone> Limiter<Key> {
     }
 }
 
+#[cfg(discv5_verif)]
+impl RateLimiter {
+    /// Verification hook: lets `d` of virtual time pass (the creation time moves back by `d`).
+    pub fn verif_age(&mut self, d: Duration) {
+        self.init_time = self.init_time.checked_sub(d).expect("instant underflow");
+    }
+
+    /// Verification hook: time since creation as the limiter sees it, and the stored theoretical
+    /// arrival times (nanoseconds since creation) of the total, per-IP and per-node limiters
+    /// (`None` = that limiter is not configured).
+    #[allow(clippy::type_complexity)]
+    pub fn verif_state(
+        &self,
+    ) -> (
+        Duration,
+        Vec<((), u64)>,
+        Option<Vec<(IpAddr, u64)>>,
+        Option<Vec<(NodeId, u64)>>,
+    ) {
+        (
+            self.init_time.elapsed(),
+            self.total_rl.verif_tats(),
+            self.ip_rl.as_ref().map(|l| l.verif_tats()),
+            self.node_rl.as_ref().map(|l| l.verif_tats()),
+        )
+    }
+}
+
+#[cfg(discv5_verif)]
+impl<Key: Hash + Eq + Clone> Limiter<Key> {
+    /// Verification hook: a limiter for `max_tokens` every `replenish_all_every`.
+    pub fn verif_new(max_tokens: u64, replenish_all_every: Duration) -> Result<Self, &'static str> {
+        Self::from_quota(Quota {
+            replenish_all_every,
+            max_tokens,
+        })
+    }
+
+    /// Verification hook: the stored keys with their theoretical arrival time (nanoseconds).
+    pub fn verif_tats(&self) -> Vec<(Key, u64)> {
+        self.tat_per_key
+            .iter()
+            .map(|(k, tat)| (k.clone(), *tat))
+            .collect()
+    }
+}
+
 #[cfg(test)]
 mod tests {
     use super::{Limiter, Quota};
